@@ -103,11 +103,13 @@ async def rescan_env_vars(workflow: Workflow, reporter: ReporterClient):
     # One step may use several changed variables, so it is collected only once.
     steps_to_rerun = {}
     reported_names = set()
+    new_values = []
     for node_i, label, name, old_value in env_var_uses:
         new_value = os.getenv(name)
         if new_value == old_value:
             continue
         steps_to_rerun[node_i] = Step(workflow, node_i, label)
+        new_values.append((new_value, node_i, name))
         if name not in reported_names:
             reported_names.add(name)
             old_fmt = fmt_env_value(old_value)
@@ -118,6 +120,13 @@ async def rescan_env_vars(workflow: Workflow, reporter: ReporterClient):
         async with workflow.db:
             for step in steps_to_rerun.values():
                 workflow.mark_step_pending(step)
+            # Record the values the steps are rebuilt with.
+            # The stored value would otherwise stay the one seen when the step was declared,
+            # and a variable that is later changed back to that value would go unnoticed,
+            # leaving outputs that were built with the value in between.
+            workflow.db.executemany(
+                "UPDATE env_var SET value = ? WHERE node = ? AND name = ?", new_values
+            )
 
 
 async def rescan_files(workflow: Workflow, reporter: ReporterClient, builder: Builder):
